@@ -44,6 +44,13 @@ def register(m):
       note="the genuine defect repaired in 403b95c")
     m("C14", "b4-dot-not-commutative-regression", "symplyphysics/core/experimental/vectors/__init__.py",
       "    # dot product is a scalar, see `VectorNorm` and `VectorMixedProduct`\n    is_real = True\n    is_commutative = True\n", "", "R2", note="the genuine defect repaired in 5e2e85e")
+    m("C16", "b4-power-of-vector-is-scalar-regression", "symplyphysics/core/experimental/vectors/__init__.py",
+      "            if isinstance(arg, SymPow) and arg.base != 0 and is_vector_expr(arg.base):\n                return False\n", "", "Q5", note="the genuine defect repaired in 24f6c73")
+    m("C04", "b4-complex-infinity-not-any-dimension-regression", "symplyphysics/core/dimensions/miscellaneous.py",
+      " or\n        getattr(factor, \"is_infinite\", None) is True)", ")", "K5", note="the genuine defect repaired in 7eadc17")
+    m("C03", "b4-wrapper-cached-by-display-name-regression", "symplyphysics/core/operations/symbolic.py",
+      "        cls._sanitize(assumptions, cls)\n        obj = SymSymbol.__xnew__(cls, display_name, **assumptions)\n        obj.factor = expr\n",
+      "        obj = super().__new__(cls, display_name, **assumptions)\n", "I4", note="the genuine defect repaired in 6afdd9a")
     # C09 N1: factories hand out fresh systems
     m("C09", "b2-transform-returns-argument", CSYS,
       ") -> CoordinateSystem:\n    new_coord_system = from_system.coord_system.create_new(",
